@@ -226,6 +226,27 @@ Theorem send_list_packet_counts_and_starts : forall num fuel l pos m k,
 Proof. exact stream_packets. Qed.
 
 (* ------------------------------------------------------------------------------------ *)
+(* The play() entry point (a function or a Buffer becomes a temporary definition and a Synth client object): one '/d_recv'
+   whose completion message is the creation command with the object's own id, the reference number of the add action, the
+   target's id and the controls '_iout' b 'out' b followed by the caller's controls; controls given as a dict arrive as
+   (control, value) pairs -- twice as many items as the dict has keys --, list and tuple controls item by item. *)
+Theorem play_emits_creation_command_with_own_id : forall V s nid def nb ob args tg act a r,
+  pv_maps_ok s ob = true -> pv_maps_ok s args = true -> target_ok s tg = true ->
+  play_elems s args = Some r -> action_number act = Some a ->
+  obj_step V s (OPlay nid def nb ob args tg act) =
+  (add_node s (Some (mkNode (PInt nid) NSynth)),
+   [SMsg [PStr "/d_recv"; PBytes nb;
+          PList (PStr "/s_new" :: PStr def :: PInt nid :: PInt a :: target_id s tg ::
+                 oal (v_dict_brackets V) s (PList (PStr "_iout" :: ob :: PStr "out" :: ob :: r)))]], None).
+Proof. exact create_play. Qed.
+
+Theorem play_controls_are_control_value_pairs :
+  (forall s ps, play_elems s (PDict ps) = Some (flat_map (fun kv => [aci s (fst kv); aci s (snd kv)]) ps)) /\
+  (forall s ps r, play_elems s (PDict ps) = Some r -> List.length r = (2 * List.length ps)%nat) /\
+  (forall s l, play_elems s (PList l) = Some (map (aci s) l) /\ play_elems s (PTuple l) = Some (map (aci s) l)).
+Proof. split; [exact play_dict_pairs | split; [exact play_dict_length | exact play_list_items]]. Qed.
+
+(* ------------------------------------------------------------------------------------ *)
 (* Several Server objects (model/ProtoMulti.v): one copy of the client state per server, every op is executed by the
    copy of the server it addresses.  What a server's address receives in a two-server history is exactly the
    single-server run of the ops addressed to it, so every theorem above holds per server whatever the other one is
@@ -313,6 +334,7 @@ Example wf_example :
      OBufNew (Some 0) (PInt 1024) (PInt 2) None (CFn "/b_query" []) true;
      OSynth SInit 1001 "default"
        (PList [PStr "freq"; PList [PInt 440; PTuple [PFlt (1 # 2); PBus 0]]; PDict [(PStr "buf", PBuf 0)]]) (TgNode 0) (ActS "tail");
+     OPlay 1002 "temp__0" 485 (PBus 0) (PDict [(PStr "freq", PInt 220); (PStr "amp", PBus 0)]) (TgNode 0) (ActS "addToTail");
      OBindEnter;
      ONodeSet 1 [PDict [(PStr "amp", PFlt (1 # 4)); (PStr "in", PMap 0)]];
      ONodeSetn 1 [PInt 3; PList [PInt 1; PFlt (1 # 2)]; PStr "pan"; PInt 0];
@@ -327,6 +349,8 @@ Example chain_example : chain 0 [(0, 1); (1, 3); (8, 2)].
 Proof. simpl. repeat split; discriminate. Qed.
 
 Print Assumptions emitted_conform.
+Print Assumptions play_emits_creation_command_with_own_id.
+Print Assumptions play_controls_are_control_value_pairs.
 Print Assumptions emitted_conform_two_servers.
 Print Assumptions ids_only_allocated.
 Print Assumptions bind_is_one_bundle_in_issue_order.
